@@ -167,6 +167,8 @@ func executeOnce(t *testing.T, eng *Engine, prop string, sc any, ch *simrt.Choic
 }
 
 func TestSim(t *testing.T) {
+	curT = t
+
 	switch os.Getenv("SIM_MODE") {
 	case "run":
 		workerRun(t)
@@ -563,7 +565,45 @@ func workerShrink(t *testing.T) {
 	writeJSON(t, os.Getenv("SIM_OUT"), f)
 }
 
+// compress collapses runs of records that differ only in sequence number, step and
+// time (idle polling), so that the tail of a trace shows what happened.
+func compress(lines []string) []string {
+	key := func(l string) string {
+		if i := strings.Index(l, "task="); i >= 0 {
+			return l[i:]
+		}
+
+		return l
+	}
+
+	var out []string
+
+	run := 0
+
+	for i, l := range lines {
+		if i > 0 && key(l) == key(lines[i-1]) {
+			run++
+			continue
+		}
+
+		if run > 0 {
+			out = append(out, fmt.Sprintf("    ... the same record %d more times ...", run))
+			run = 0
+		}
+
+		out = append(out, l)
+	}
+
+	if run > 0 {
+		out = append(out, fmt.Sprintf("    ... the same record %d more times ...", run))
+	}
+
+	return out
+}
+
 func tail(lines []string, n int) []string {
+	lines = compress(lines)
+
 	if len(lines) <= n {
 		return lines
 	}
@@ -615,3 +655,19 @@ func workerReplay(t *testing.T) {
 
 	writeJSON(t, os.Getenv("SIM_OUT"), rep)
 }
+
+func init() {
+	bubbleRunner = func(f func()) {
+		func() {
+			defer func() {
+				if r := recover(); r != nil && !strings.Contains(fmt.Sprint(r), "blocked goroutines remain") {
+					panic(r)
+				}
+			}()
+
+			synctest.Test(curT, func(*testing.T) { f() })
+		}()
+	}
+}
+
+var curT *testing.T
